@@ -38,6 +38,18 @@ CRONCONC_RULE = ("`gkh cronconc` (concurrent variant; monitors in the harness, r
                  "returned a stopped store's timer is neither armed nor pending: MON C17); ")
 
 
+MEMCONC_RULE = ("`gkh memconc` (deterministic windows; monitors in the harness, relayed by the repo driver): two calls on one "
+                "in-memory repository race, the first (Cancel / MarkAsDispatched / MarkAsDone / AddTask) PARKED at its clock "
+                "read, the second (a mutation, GetById / GetNext, or Load(Save())) trying to complete meanwhile; (both results, "
+                "final contents, heap array, GetNext) must equal one of the two sequential orders, computed by running the same "
+                "repository sequentially on fresh identical worlds (MON C10), and GetNext must be the minimum of the "
+                "scheduled tasks afterwards (MON C02); ")
+
+
+def memconc_run(tier):
+    return {"args": ["memconc", "-n", str({"quick": 300, "thorough": 6000, "widen": 1500}[tier])], "seed_off": 8}
+
+
 def golean_run():
     return {"args": ["golean"]}
 
@@ -99,8 +111,8 @@ CHECKS = {
     "C02": {
         "family": "repo", "level": "proof", "modules": ["Gk.Props.C02"],
         "components": ["repo", "next", "heap", "memspec", "snapshot"],
-        "runs": repo_runs(REPO_SIZES, extra=(("mem", "snapshot"),)),
-        "rule": "histories over 3-value domains for scheduled time / priority (ties forced), GetNext compared with the "
+        "runs": (lambda f: lambda tier: f(tier) + [memconc_run(tier)])(repo_runs(REPO_SIZES, extra=(("mem", "snapshot"),))),
+        "rule": MEMCONC_RULE + "histories over 3-value domains for scheduled time / priority (ties forced), GetNext compared with the "
                 "less-minimum of the implementation's own dump (Mon.c02) and, for the in-memory repository, the heap "
                 "array, every Index field and every InsertionOrder compared with Impl.Mem after every operation",
         "trusted_base": COMMON_TB + ["container/heap is modelled (Gk/Heap.lean) and tied by whole-array comparison"],
@@ -311,6 +323,7 @@ CHECKS = {
                       {"args": ["lin", "-impl", "entfile", "-n", "150", "-g", "3", "-k", "2"]},
                       {"args": ["lin", "-impl", "mem", "-n", "600", "-g", "4", "-k", "2"], "race": True, "seed_off": 2},
                       {"args": ["entproto", "-n", "2000", "-len", "40"], "seed_off": 3},
+                      memconc_run("quick"),
                       {"args": ["srcfacts", "-facts", "lock,sql"]}],
             "thorough": [{"args": ["lin", "-impl", "mem", "-n", "60000", "-g", "4", "-k", "2", "-procs", str(p)], "seed_off": p}
                          for p in (2, 4, 16)] +
@@ -320,11 +333,13 @@ CHECKS = {
                          {"args": ["lin", "-impl", "entfile", "-n", "300", "-g", "3", "-k", "2"], "race": True, "seed_off": 10},
                          {"args": ["entproto", "-n", "150000", "-len", "50"], "seed_off": 11},
                          {"args": ["entproto", "-n", "50000", "-len", "30", "-clients", "4"], "seed_off": 12},
+                         memconc_run("thorough"),
                          {"args": ["srcfacts", "-facts", "lock,sql"]}],
             "widen": [{"args": ["lin", "-impl", "mem", "-n", "30000", "-g", "4", "-k", "2"]},
-                      {"args": ["entproto", "-n", "20000", "-len", "40"], "seed_off": 13}],
+                      {"args": ["entproto", "-n", "20000", "-len", "40"], "seed_off": 13},
+                      memconc_run("widen")],
         }[tier],
-        "rule": "real goroutines behind a barrier issue add / cancel / dispatch / update / done / get / next / find on "
+        "rule": MEMCONC_RULE + "real goroutines behind a barrier issue add / cancel / dispatch / update / done / get / next / find on "
                 "two shared tasks (all sort keys tied, fixed clock) of the in-memory and the file-backed ent/SQLite "
                 "repository; calls and returns are stamped with one atomic counter; a sequential suffix lists and "
                 "drains the repository; the recorded history is decided by the Lean checker Gk.Lin.linearizable over "
